@@ -629,6 +629,7 @@ func genSide(t *rapid.T, label string, server bool, family string) scen.EP {
 	default:
 		ep.MinVer, ep.MaxVer = 12, 13
 	}
+	ep.MaxFirst = rapid.Bool().Draw(t, label+"maxfirst")
 	suiteAlphabet := []uint16{0xc02b, 0xc02c, 0xcca9, 0xc0ac, 0xc00a, 0xc02f, 0xc030, 0x1301, 0x1302, 0x1303}
 	if family == "psk" {
 		suiteAlphabet = []uint16{0x00a8, 0xccab, 0xc0a8, 0xc037, 0xc02b}
